@@ -1,1 +1,120 @@
-From PLV Require Import Disc.CliffordTModel Disc.CliffordTProofs.
+(* C15 Clifford+T approximations meet their precision bound.
+   Statements only; every proof is `exact <lemma>` from Disc/CliffordTProofs.v.
+   What is proved here holds for ALL words / ring elements.  What is NOT proved: that the
+   Ross-Selinger grid search, the Diophantine solver and the Solovay-Kitaev recursion FIND a word
+   within eps (search completeness); that part is validated per run by evaluating the definitions
+   below inside Coq on the words returned by the real functions (harness/props/c15.py). *)
+From Coq Require Import List ZArith Bool QArith.
+From PLV Require Import Disc.RingsModel Disc.RingsProofs Disc.CliffordTModel Disc.CliffordTProofs.
+Import ListNotations.
+Open Scope Z_scope.
+
+(* the exact denotation of a circuit-ordered word is multiplicative: running w1 then w2 is the
+   matrix product  [w2] [w1]  (entries in Z[omega], denominator exponents add) *)
+Theorem word_denote_app : forall w1 w2,
+  word_denote (w1 ++ w2) = dm_matmul_raw (word_denote w2) (word_denote w1).
+Proof. exact word_denote_app_lemma. Qed.
+Print Assumptions word_denote_app.
+
+(* every word over the alphabet denotes an exactly unitary matrix:
+   M^dagger M = 2^k I for the numerator M of M / sqrt2^k, with k >= 0 *)
+Theorem word_unitary : forall w, gates_in_set w = true ->
+  0 <= mk (word_denote w) /\
+  dm_matmul_raw (dm_dagger (word_denote w)) (word_denote w)
+    = dm_scalar (zo_int (2 ^ mk (word_denote w))) (mk (word_denote w) + mk (word_denote w)).
+Proof. exact word_unitary_lemma. Qed.
+Print Assumptions word_unitary.
+
+(* the executable unitarity test used in the tie decides exactly that statement *)
+Theorem dm_unitaryb_spec : forall m, dm_unitaryb m = true <->
+  (0 <= mk m /\ dm_matmul_raw (dm_dagger m) m = dm_scalar (zo_int (2 ^ mk m)) (mk m + mk m)).
+Proof. exact dm_unitaryb_spec_lemma. Qed.
+Print Assumptions dm_unitaryb_spec.
+
+(* the product evaluated in the tie (coefficient permutations instead of ring multiplications)
+   is the denotation *)
+Theorem word_denote_fast_correct : forall w, word_denote_fast w = word_denote w.
+Proof. exact word_denote_fast_ok. Qed.
+Print Assumptions word_denote_fast_correct.
+
+(* output alphabet: a decidable predicate; a decoded word passes it iff it consists of
+   H S T X Y Z Adjoint(S) Adjoint(T) Identity GlobalPhase only *)
+Theorem gates_in_set_spec : forall w, gates_in_set w = true <-> Forall (fun g => g <> GOther) w.
+Proof. exact gates_in_set_spec_lemma. Qed.
+Print Assumptions gates_in_set_spec.
+Theorem parse_alphabet : forall l, gates_in_set (parse l) = true ->
+  Forall (fun g => In g [GH; GS; GT; GX; GY; GZ; GSd; GTd; GI; GPh]) (parse l).
+Proof. exact parse_alphabet_lemma. Qed.
+Print Assumptions parse_alphabet.
+
+(* Ross-Selinger candidate: for ALL u, t in Z[omega] and k >= 0 with u^* u + t^* t = 2^k the
+   matrix [[u, -t^*],[t, u^*]] / sqrt2^k is exactly unitary *)
+Theorem candidate_unitary : forall u t k, 0 <= k ->
+  zo_add (zo_mul (zo_conj u) u) (zo_mul (zo_conj t) t) = zo_int (2 ^ k) ->
+  dm_unitaryb (rs_candidate u t k) = true.
+Proof. intros u t k Hk H. apply dm_unitaryb_spec_lemma. exact (candidate_unitary_lemma u t k Hk H). Qed.
+Print Assumptions candidate_unitary.
+(* ... and rescaling u, t by a unit s (the domain-correction factor, a power of omega) keeps the equation *)
+Theorem candidate_rescale : forall u t s, zo_mul (zo_conj s) s = zo_one ->
+  zo_add (zo_mul (zo_conj (zo_mul u s)) (zo_mul u s)) (zo_mul (zo_conj (zo_mul t s)) (zo_mul t s))
+  = zo_add (zo_mul (zo_conj u) u) (zo_mul (zo_conj t) t).
+Proof. exact candidate_scale. Qed.
+Print Assumptions candidate_rescale.
+
+(* equality up to a global phase as tested in the exact-stage tie: every scalar multiple passes *)
+Theorem proportional_to_scalar_multiple : forall s m k, dm_proportional (dm_map (zo_mul s) m k) m = true.
+Proof. exact proportional_scaled. Qed.
+Print Assumptions proportional_to_scalar_multiple.
+
+(* 2 Re, 2 Im : Z[omega] -> Z[sqrt2] obey the complex multiplication rule (the embedding into C
+   that gives the linear forms coefX / coefY their meaning 2 Re tr(M^dagger T), 2 Im tr(M^dagger T)) *)
+Theorem re_im_multiplicative : forall x y,
+  zs_mulz (re2 (zo_mul x y)) 2 = zs_sub (zs_mul (re2 x) (re2 y)) (zs_mul (im2 x) (im2 y)) /\
+  zs_mulz (im2 (zo_mul x y)) 2 = zs_add (zs_mul (re2 x) (im2 y)) (zs_mul (im2 x) (re2 y)).
+Proof. intros x y; split; [exact (re2_mul x y) | exact (im2_mul x y)]. Qed.
+Print Assumptions re_im_multiplicative.
+Theorem re_im_conj : forall x, re2 (zo_conj x) = re2 x /\ im2 (zo_conj x) = zs_neg (im2 x).
+Proof. intros x; split; [exact (re2_conj x) | exact (im2_conj x)]. Qed.
+Print Assumptions re_im_conj.
+
+Open Scope Q_scope.
+(* Distance.  For unitary W = M / sqrt2^k and a unitary target T the operator-norm distance up to
+   a global phase is sqrt(2 - |tr(W^dagger T)|); it is <= eps iff |tr(M^dagger T)|^2 >= 2^k (2 - eps^2)^2.
+   With xs the 16 real numbers (Re, Im, sqrt2 Re, sqrt2 Im of the 4 target entries),
+   lin_val (coefX M) xs = 2 Re tr(M^dagger T) and lin_val (coefY M) xs = 2 Im tr(M^dagger T).
+   Soundness of the interval test: whenever the numbers lie in the given enclosures (given for
+   x * S, S a positive integer scale) and the test passes, the inequality holds.
+   (Stated over Q for abstract enclosed numbers; no real numbers are used.) *)
+Theorem enclosure_check_sound : forall m S enc eps2 xs,
+  Forall2 (fun e x => fst e <= x * qz S <= snd e) enc xs ->
+  dist_ok m S enc eps2 = true -> 0 <= 2 - eps2 ->
+  4 * qz (2 ^ mk m) * ((2 - eps2) * (2 - eps2))
+    <= lin_val (coefX m) xs * lin_val (coefX m) xs + lin_val (coefY m) xs * lin_val (coefY m) xs.
+Proof. exact enclosure_check_sound_lemma. Qed.
+Print Assumptions enclosure_check_sound.
+
+Theorem linear_forms_meaning : forall x tr ti r,
+  lin_val (coefX_entry x) [tr; ti; r * tr; r * ti]
+    == (qz (sa (re2 x)) + qz (sb (re2 x)) * r) * tr + (qz (sa (im2 x)) + qz (sb (im2 x)) * r) * ti /\
+  lin_val (coefY_entry x) [tr; ti; r * tr; r * ti]
+    == (qz (sa (re2 x)) + qz (sb (re2 x)) * r) * ti - (qz (sa (im2 x)) + qz (sb (im2 x)) * r) * tr.
+Proof. exact coef_entry_meaning. Qed.
+Print Assumptions linear_forms_meaning.
+Close Scope Q_scope.
+
+(* non-vacuity: a concrete word is in the alphabet, unitary, and passes the distance test against
+   the identity target (enclosures [S,S] for Re t00 = Re t11 = 1, sqrt2 in [1.41 S, 1.42 S]) *)
+Example ex_word : gates_in_set (parse [0x1a321%Z]) = true /\ dm_unitaryb (word_denote (parse [0x1a321%Z])) = true.
+Proof. split; reflexivity. Qed.
+Example ex_dist : dist_ok (word_denote [GH; GH; GPh]) 100
+  (map (fun e => (inject_Z (fst e), inject_Z (snd e)))
+       [(100, 100); (0, 0); (141, 142); (0, 0); (0, 0); (0, 0); (0, 0); (0, 0);
+        (0, 0); (0, 0); (0, 0); (0, 0); (100, 100); (0, 0); (141, 142); (0, 0)]) (1 # 100) = true.
+Proof. vm_compute. reflexivity. Qed.
+Example ex_dist_far : dist_ok (word_denote [GH; GPh]) 100
+  (map (fun e => (inject_Z (fst e), inject_Z (snd e)))
+       [(100, 100); (0, 0); (141, 142); (0, 0); (0, 0); (0, 0); (0, 0); (0, 0);
+        (0, 0); (0, 0); (0, 0); (0, 0); (100, 100); (0, 0); (141, 142); (0, 0)]) (1 # 100) = false.
+Proof. vm_compute. reflexivity. Qed.
+Example ex_candidate : dm_unitaryb (rs_candidate (ZO 0 0 1 0) (ZO 0 0 0 0) 0) = true.
+Proof. reflexivity. Qed.
